@@ -7,6 +7,7 @@ import Driver.CmdAcct
 import Driver.CmdMisc
 import Driver.CmdMatch
 import Driver.CmdSize
+import Driver.CmdRun
 /-! Command table of the replay driver (model instantiated at `Float`). -/
 namespace Driver
 open RQ.F
@@ -59,6 +60,9 @@ def dispatch (toks : List String) : String :=
   | some r => r
   | none =>
   match cmdSize toks with
+  | some r => r
+  | none =>
+  match cmdRun toks with
   | some r => r
   | none => "ERR unknown-command"
 
